@@ -209,7 +209,9 @@ def judge_scenario(rep, real, Scripted, sc, want, stats):
         rep.violation("pygamma.observed", detail)
         return
     m = min(len(got_chance), len(want["chance"]))
-    if any(not near(got_chance[k], want["chance"][k] / L) for k in range(m)):
+    # as a multiset when the counts agree (C05 does not fix the ORDER in which the chance alignments are held; C06 does)
+    gc, wc = (sorted(got_chance), sorted(want["chance"])) if len(got_chance) == len(want["chance"]) else (got_chance, want["chance"])
+    if any(not near(gc[k], wc[k] / L) for k in range(m)):
         rep.violation("pygamma.chance_values", detail)
         return
     if len(got_chance) == T:
